@@ -268,14 +268,17 @@ class DirectedMultigraph : private LabeledDirectedGraph<EdgeMultiplicity> {
             successors.erase(j++);
             edgeNumber--;
         }
-        for (VertexIndex i = 0; i < size; ++i)
+        for (VertexIndex i = 0; i < size; ++i) {
             removeAllEdges(i, vertex);
+            edgeLabels.erase({vertex, i});
+        }
     }
 
     /// @copydoc LabeledDirectedGraph::clearEdges
     void clearEdges() {
         for (VertexIndex i : *this)
             adjacencyList[i].clear();
+        edgeLabels.clear();
         edgeNumber = 0;
         totalEdgeNumber = 0;
     }
